@@ -77,14 +77,21 @@ func certGuard(fn *ssa.Function, instr ssa.Instruction) string {
 // sideTerms lists what is added into the object of v before `at`.
 func sideTerms(objs *bigObjs, fn *ssa.Function, v ssa.Value, at ssa.Instruction, side string) []term {
 	var out []term
-	seen := map[ssa.Value]bool{}
+	type visitKey struct {
+		root ssa.Value
+		via  ssa.Instruction
+	}
+	seen := map[visitKey]bool{}
+	// via: the operation that adds the (possibly shared) operand into the side's accumulator — the certificate guard
+	// of a term is where it is booked, not where the operand object happened to be built
 	var walk func(v ssa.Value, via ssa.Instruction, d int)
 	walk = func(v ssa.Value, via ssa.Instruction, d int) {
 		root := objs.find(v)
-		if seen[root] || d > 6 {
+		k := visitKey{root, via}
+		if seen[k] || d > 6 {
 			return
 		}
-		seen[root] = true
+		seen[k] = true
 		ops := objs.opsBefore(v, at)
 		if len(ops) == 0 {
 			g := ""
@@ -94,20 +101,25 @@ func sideTerms(objs *bigObjs, fn *ssa.Function, v ssa.Value, at ssa.Instruction,
 			out = append(out, term{desc(v), g, side})
 			return
 		}
-		nonObj := false
 		for _, ci := range ops {
+			use := via
+			if use == nil {
+				use = ci.(ssa.Instruction)
+			}
 			for _, a := range ci.Common().Args[1:] {
 				if strings.HasSuffix(typeStr(a.Type()), "big.Int") {
 					if objs.find(a) != root {
-						walk(a, ci.(ssa.Instruction), d+1)
+						walk(a, use, d+1)
 					}
 				} else {
-					nonObj = true
-					out = append(out, term{desc(a), certGuard(fn, ci.(ssa.Instruction)), side})
+					g := certGuard(fn, use)
+					if g == "" {
+						g = certGuard(fn, ci.(ssa.Instruction))
+					}
+					out = append(out, term{desc(a), g, side})
 				}
 			}
 		}
-		_ = nonObj
 	}
 	walk(v, nil, 0)
 	return out
@@ -307,12 +319,23 @@ func (c *Ctx) checkAssetConservation(fn *ssa.Function, key string) {
 	maps := map[ssa.Value]*src{}
 	// accumulation sites: Add(lookup(M,k), _, amount), either directly in the rule or inside a helper/closure
 	// whose map and amount are parameters (one level of summarisation; the call site supplies M and amount)
-	lookupMap := func(v ssa.Value) ssa.Value {
+	var lookupMap func(v ssa.Value, d int) ssa.Value
+	lookupMap = func(v ssa.Value, d int) ssa.Value {
+		if d > 3 {
+			return nil
+		}
 		if e, ok := v.(*ssa.Extract); ok {
 			v = e.Tuple
 		}
 		if lk, ok := v.(*ssa.Lookup); ok {
 			return lk.X
+		}
+		if ph, ok := v.(*ssa.Phi); ok {
+			for _, e := range ph.Edges {
+				if m := lookupMap(e, d+1); m != nil {
+					return m
+				}
+			}
 		}
 		return nil
 	}
@@ -325,53 +348,68 @@ func (c *Ctx) checkAssetConservation(fn *ssa.Function, key string) {
 		return -1
 	}
 	type site struct {
-		m, amount ssa.Value
+		m      ssa.Value
+		amount string // description of the amount in the vocabulary of the function the site is reported for
 	}
-	var sites []site
-	var updates []*ssa.MapUpdate // stores into the sum maps (checked for freshness below)
-	updateMap := map[*ssa.MapUpdate]ssa.Value{}
-	for _, ci := range allCalls(fn) {
-		cc := ci.Common()
-		if bigMethod(cc) == "Add" && len(cc.Args) >= 3 {
-			if m := lookupMap(cc.Args[0]); m != nil {
-				sites = append(sites, site{m, cc.Args[2]})
+	type upd struct {
+		mu *ssa.MapUpdate
+		m  ssa.Value // the map, as a value of the function the update is reported for
+	}
+	// collect accumulation sites and map updates of f, following same-package helpers whose map is a parameter
+	var collect func(f *ssa.Function, depth int) ([]site, []upd)
+	collect = func(f *ssa.Function, depth int) ([]site, []upd) {
+		var ss []site
+		var us []upd
+		for _, in := range fnInstrs(f) {
+			if mu, ok := in.(*ssa.MapUpdate); ok {
+				us = append(us, upd{mu, mu.Map})
 			}
-			continue
 		}
-		h := cc.StaticCallee()
-		if h == nil || h.Blocks == nil || (h.Parent() != fn && h.Pkg != fn.Pkg) {
-			continue
-		}
-		for _, hi := range allCalls(h) {
-			hc := hi.Common()
-			if bigMethod(hc) != "Add" || len(hc.Args) < 3 {
-				continue
-			}
-			m := lookupMap(hc.Args[0])
-			if m == nil {
-				continue
-			}
-			mi, ai := paramIdx(h, m), paramIdx(h, hc.Args[2])
-			if mi < 0 || ai < 0 || mi >= len(cc.Args) || ai >= len(cc.Args) {
-				continue
-			}
-			sites = append(sites, site{cc.Args[mi], cc.Args[ai]})
-			for _, ins := range fnInstrs(h) {
-				if mu, ok := ins.(*ssa.MapUpdate); ok && mu.Map == m {
-					if _, seen := updateMap[mu]; !seen {
-						updates = append(updates, mu)
-					}
-					updateMap[mu] = cc.Args[mi]
+		for _, ci := range allCalls(f) {
+			cc := ci.Common()
+			if bigMethod(cc) == "Add" && len(cc.Args) >= 3 {
+				if m := lookupMap(cc.Args[0], 0); m != nil {
+					ss = append(ss, site{m, desc(cc.Args[2])})
 				}
+				continue
+			}
+			h := cc.StaticCallee()
+			if h == nil || h.Blocks == nil || depth <= 0 || (h.Parent() != f && h.Pkg != f.Pkg) || h == f {
+				continue
+			}
+			hs, hu := collect(h, depth-1)
+			for _, x := range hs {
+				mi := paramIdx(h, x.m)
+				if mi < 0 || mi >= len(cc.Args) {
+					continue
+				}
+				ss = append(ss, site{cc.Args[mi], substParams(x.amount, cc.Args)})
+			}
+			for _, x := range hu {
+				mi := paramIdx(h, x.m)
+				if mi < 0 || mi >= len(cc.Args) {
+					continue
+				}
+				us = append(us, upd{x.mu, cc.Args[mi]})
 			}
 		}
+		return ss, us
+	}
+	sites, allUpdates := collect(fn, 3)
+	var updates []*ssa.MapUpdate
+	updateMap := map[*ssa.MapUpdate]ssa.Value{}
+	for _, u := range allUpdates {
+		if _, seen := updateMap[u.mu]; !seen {
+			updates = append(updates, u.mu)
+		}
+		updateMap[u.mu] = u.m
 	}
 	for _, st := range sites {
 		m := st.m
 		if maps[m] == nil {
 			maps[m] = &src{}
 		}
-		ad := desc(st.amount)
+		ad := st.amount
 		switch {
 		case strings.Contains(ad, "AssetMint("):
 			maps[m].mint = true
@@ -379,12 +417,6 @@ func (c *Ctx) checkAssetConservation(fn *ssa.Function, key string) {
 			maps[m].inputs = true
 		case strings.Contains(ad, "Transaction.Outputs("):
 			maps[m].outputs = true
-		}
-	}
-	for _, ins := range fnInstrs(fn) {
-		if mu, ok := ins.(*ssa.MapUpdate); ok && maps[mu.Map] != nil {
-			updates = append(updates, mu)
-			updateMap[mu] = mu.Map
 		}
 	}
 	// every accumulator stored in a sum map is a fresh big.Int: Add mutates its receiver, so storing a quantity
@@ -431,13 +463,10 @@ func (c *Ctx) checkAssetConservation(fn *ssa.Function, key string) {
 	// comparisons in both directions, inequality -> error
 	fwd, bwd := false, false
 	for _, ci := range allCalls(fn) {
-		if bigMethod(ci.Common()) != "Cmp" {
+		m := bigMethod(ci.Common())
+		if m != "Cmp" && m != "Sign" {
 			continue
 		}
-		a, b := desc(ci.Common().Args[0]), desc(ci.Common().Args[1])
-		dm, dp := desc(mc), desc(mp)
-		_ = dm
-		_ = dp
 		call := ci.(*ssa.Call)
 		neq := desc(call) + " != 0"
 		leadsToErr := false
@@ -456,10 +485,19 @@ func (c *Ctx) checkAssetConservation(fn *ssa.Function, key string) {
 		if !leadsToErr {
 			continue
 		}
-		if strings.Contains(a, "range(") && strings.Contains(b, "lookup(") {
-			fwd = true
+		a := desc(ci.Common().Args[0])
+		if !strings.Contains(a, "range(") {
+			continue
 		}
-		if strings.Contains(a, "range(") && !strings.Contains(b, "lookup(") && !strings.Contains(b, "range(") {
+		if m == "Sign" {
+			// a remaining produced quantity must be zero
+			bwd = true
+			continue
+		}
+		b := desc(ci.Common().Args[1])
+		if strings.Contains(b, "lookup(") {
+			fwd = true
+		} else if !strings.Contains(b, "range(") {
 			bwd = true
 		}
 	}
